@@ -10,6 +10,7 @@ import (
 	"io"
 	"os"
 	"path/filepath"
+	"sync"
 
 	"github.com/AdguardTeam/urlfilter/filterlist"
 	"github.com/AdguardTeam/urlfilter/rules"
@@ -37,6 +38,7 @@ type Built struct {
 	Files   []*filterlist.FileRuleList // nil entries for non-file lists
 	Faulty  []*FaultyRuleList          // nil entries for unwrapped lists
 	paths   []string
+	mu      sync.Mutex // protects extra (written by a fault task, read by Cleanup)
 	extra   []*os.File
 	plans   []ListPlan
 	clone   bool
@@ -151,13 +153,22 @@ func (b *Built) Clone(withFaulty bool) (*Built, error) {
 // Cleanup closes and removes everything the build created.
 func (b *Built) Cleanup() {
 	for _, f := range b.Files {
-		if f != nil && f.File != nil {
-			_ = f.File.Close()
+		// the File field may have been swapped by a fault task under the
+		// list's mutex; if a task that was left parked still holds it, the
+		// descriptor is simply not closed
+		if f != nil && f.TryLock() {
+			file := f.File
+			f.Unlock()
+			if file != nil {
+				_ = file.Close()
+			}
 		}
 	}
+	b.mu.Lock()
 	for _, f := range b.extra {
 		_ = f.Close()
 	}
+	b.mu.Unlock()
 	if !b.clone {
 		for _, p := range b.paths {
 			_ = os.Remove(p)
@@ -224,7 +235,9 @@ func (b *Built) Inject(k, i int, dir string, n int) error {
 		old := l.File
 		l.File = f
 		l.Unlock()
+		b.mu.Lock()
 		b.extra = append(b.extra, old)
+		b.mu.Unlock()
 	case FSwapDir:
 		f, err := os.Open(dir)
 		if err != nil {
@@ -235,7 +248,9 @@ func (b *Built) Inject(k, i int, dir string, n int) error {
 		old := l.File
 		l.File = f
 		l.Unlock()
+		b.mu.Lock()
 		b.extra = append(b.extra, old, f)
+		b.mu.Unlock()
 	case FStubPermanent:
 		b.Faulty[i].set(-1)
 	case FStubTransient:
